@@ -123,7 +123,8 @@ class TempfileMktempTransformer(
         match bsstmt:
             case cst.Assign(value=value, targets=targets):
                 maybe_value = self._is_mktemp_call(value)  # type: ignore
-                if maybe_value and all(
+                # `a = b = mktemp()`: the rewrite binds one name only, leave it alone
+                if maybe_value and len(targets) == 1 and all(
                     map(
                         lambda t: matchers.matches(
                             t, matchers.AssignTarget(target=matchers.Name())
